@@ -658,6 +658,9 @@ func runCase(t *testing.T, c *sim.Case, script []int16, strict bool) (*sim.Viola
 func gen(r *sim.Rng, tier string) *sim.Case {
 	c := &sim.Case{Params: map[string]int{}}
 	c.Params["limit"] = []int{-1, 0, 1, 1, 2, 2, 3, 4, 5, 7}[r.N(10)]
+	if r.Pct(4) {
+		c.Params["limit"] = r.Range(6, 20) // any limit, odd and even, with few scripted tasks
+	}
 	c.Params["handler"] = r.Pick(1, 3)
 	nEff := c.Params["limit"]
 	if nEff < 1 {
@@ -670,7 +673,7 @@ func gen(r *sim.Rng, tier string) *sim.Case {
 	nScript := r.N(maxTasks + 1)
 	if r.Pct(3) {
 		nScript = r.Range(15, 40) // rare large run
-		c.Params["limit"] = []int{1, 2, 3, 8, 16}[r.N(5)]
+		c.Params["limit"] = []int{1, 2, 3, 8, 9, 11, 13, 16}[r.N(8)]
 		nEff = c.Params["limit"]
 	}
 	panicPct := []int{0, 20, 50, 100}[r.N(4)]
